@@ -161,32 +161,28 @@ def _orders(params):
     return out
 
 
-def _chain_job(rule_desc, tier, max_reports=6):
-    from vf.props import c05_core as core
-    inst = _instances(rule_desc, tier)
-    rule = core.resolve(rule_desc["path"])      # the live shared object (nothing applied in this process)
-    n = len(inst)
-    res = {"rule": rule_desc["id"], "instances": n, "forks": 0, "applications": 0, "orders": [], "divergences": [],
-           "crashes": 0}
-    if n == 0:
-        return res
-    indig = _forked(lambda: {"b": [_baseline(b) for _, b in inst]}).get("b") or [None] * n
+def _run_chains(res, params, apply_k, max_rot=None, max_reports=6, chain_timeout=1200.0):
+    """Shared core: goldens by one fork per instance from the pristine parent, then every order as one chain in a forked
+    child; divergences reduced to the shortest reproducing suffix.  apply_k(k) -> digest string."""
+    n = len(params)
     gold = []
     for k in range(n):
-        g = _forked(lambda k=k: {"d": _apply(rule, inst[k][1])})
+        g = _forked(lambda k=k: {"d": apply_k(k)})
         res["forks"] += 1
         if "crash" in g:
             res["crashes"] += 1
             gold.append(None)
         else:
             gold.append(g["d"])
-    res["golden_changed"] = sum(1 for g, i in zip(gold, indig) if g is not None and not g.startswith("raise:") and g != i)
     res["golden_raise"] = sum(1 for g in gold if g is not None and g.startswith("raise:"))
     res["golden_distinct"] = len(set(gold))
-    params = [p for p, _ in inst]
     orders = _orders(params)
+    if max_rot is not None and len(orders) > 2 * max_rot:
+        # first and last rotation(s): the last and the first dimension vary fastest
+        keep = orders[:2] + orders[-2 * (max_rot - 1):] if max_rot > 1 else orders[:2]
+        orders = keep
     for lab, order in orders:
-        got = _forked(lambda order=order: {"ds": [_apply(rule, inst[k][1]) for k in order]}, timeout=1200.0)
+        got = _forked(lambda order=order: {"ds": [apply_k(k) for k in order]}, timeout=chain_timeout)
         res["forks"] += 1
         if "crash" in got:
             res["crashes"] += 1
@@ -204,8 +200,8 @@ def _chain_job(rule_desc, tier, max_reports=6):
             def run_hist(h, k=k):
                 def body():
                     for j in h:
-                        _apply(rule, inst[j][1])
-                    return {"d": _apply(rule, inst[k][1])}
+                        apply_k(j)
+                    return {"d": apply_k(k)}
                 res["forks"] += 1
                 return _forked(body).get("d")
 
@@ -237,6 +233,61 @@ def _chain_job(rule_desc, tier, max_reports=6):
                 "differs_from_last_in": sorted(dn for dn in params[k]
                                                if hist and params[hist[-1]].get(dn) != params[k].get(dn))})
         res["orders"].append({"order": lab, "diverging": nd})
+    return gold
+
+
+def _chain_job(rule_desc, tier):
+    from vf.props import c05_core as core
+    inst = _instances(rule_desc, tier)
+    rule = core.resolve(rule_desc["path"])      # the live shared object (nothing applied in this process)
+    n = len(inst)
+    res = {"rule": rule_desc["id"], "instances": n, "forks": 0, "applications": 0, "orders": [], "divergences": [],
+           "crashes": 0}
+    if n == 0:
+        return res
+    indig = _forked(lambda: {"b": [_baseline(b) for _, b in inst]}).get("b") or [None] * n
+    gold = _run_chains(res, [p for p, _ in inst], lambda k: _apply(rule, inst[k][1]))
+    res["golden_changed"] = sum(1 for g, i in zip(gold, indig) if g is not None and not g.startswith("raise:") and g != i)
+    return res
+
+
+def _fusion_job(fam_name, tier):
+    """The same exploration for one ORT-fusion family of C19: instances = every configuration of the family's quick/thorough
+    plan; operation = build the model (script template) and run the family's single-fusion chains on it with the shared
+    module-level fusion rule objects of onnxscript.rewriter.ort_fusions; digest of all resulting protos."""
+    from vf import explore
+    from vf.props import c19
+    fam = c19.FAMILIES[fam_name]
+    bound = fam.get("bound", {}).get(tier, c19.BOUND[tier])
+    st = explore.Stats()
+    cfgs = [cfg for _, cfg in explore.explore(c19._make_driver(fam), bound=bound, stats=st)]
+    res = {"rule": "fusion:" + fam_name, "instances": len(cfgs), "forks": 0, "applications": 0, "orders": [],
+           "divergences": [], "crashes": 0}
+    if not cfgs:
+        return res
+
+    def apply_k(k):
+        cfg = cfgs[k]
+        try:
+            m0, _spec = fam["build"](cfg)
+        except Exception as e:  # noqa: BLE001
+            return "build-" + _norm_err(e)
+        parts = []
+        for fname, chain in fam["fusions"](cfg):
+            try:
+                model = c19._prepare(m0)
+                ctx = {}
+                for s in chain:
+                    if s.endswith("_if"):
+                        nfired = int(c19.steps()[s[:-3]](model) or 0) if (ctx.get("mha1") or ctx.get("mha2")) else 0
+                    else:
+                        nfired = int(c19.steps()[s](model) or 0)
+                    ctx[s] = nfired
+                parts.append(fname + ":" + _digest(c19._to_proto(model).SerializeToString(deterministic=True)))
+            except Exception as e:  # noqa: BLE001
+                parts.append(fname + ":" + _norm_err(e))
+        return "|".join(parts)
+    _run_chains(res, cfgs, apply_k, max_rot=1 if tier == "quick" else 3, chain_timeout=3000.0)
     return res
 
 
@@ -302,11 +353,15 @@ def main():
         from vf.props import c05
         rd = [r for r in c05._rules() if r["id"] == job["rule"]]
         res = _chain_job(rd[0], tier) if rd else {"rule": job["rule"], "instances": 0, "missing": True}
+    elif job["mode"] == "fusion":
+        res = _fusion_job(job["family"], tier)
     elif job["mode"] == "cross":
         res = _cross_job(job["block"], tier)
     elif job["mode"] == "list":
         from vf.props import c05
-        res = {"rules": [r["id"] for r in c05._rules()]}
+        from vf.props import c19
+        res = {"rules": [r["id"] for r in c05._rules()],
+               "fusion_families": [f["name"] for f in c19._families(tier)]}
     else:
         raise SystemExit("unknown mode")
     res["tree"] = c14_events.TREE
